@@ -312,3 +312,29 @@ def write_evidence(ctx, coverage, violations, assumptions):
     with open(os.path.join(VERIF, 'evidence', ctx.pid + '.json'), 'w') as f:
         json.dump(ev, f, indent=1, default=str)
     return ev
+
+
+# --------------------------------------------------------------------------- generic case runner
+
+def run_cases(ctx, prefix, header, cases, per_file=100, timeout=900):
+    """cases: list of Coq terms of type nat (0 = ok, other = failure code).  Shards them into Cases/<prefix>_<k>.v,
+    evaluates each with vm_compute and returns ({case_index: code}, [names of files that did not evaluate])."""
+    files = []
+    for k in range(0, len(cases), per_file):
+        rows = ';\n'.join(f'(({k + i})%Z, {t})' for i, t in enumerate(cases[k:k + per_file]))
+        body = header + '\nDefinition cases : list (Z * nat) := [\n' + rows + '].\n'
+        body += 'Eval vm_compute in filter (fun c => negb (Nat.eqb (snd c) 0)) cases.\n'
+        files.append((f'{prefix}_{k // per_file}', body))
+    res = ctx.coq_eval_many(files, timeout=timeout)
+    bad, broken = {}, []
+    for name, (rc, out) in sorted(res.items()):
+        if rc != 0:
+            broken.append((name, out[-600:]))
+            continue
+        lists = parse_eval_lists(out)
+        if not lists:
+            broken.append((name, 'no Eval result: ' + out[-300:]))
+            continue
+        for m in re.finditer(r'\((-?\d+)(?:%Z)?,\s*(\d+)(?:%nat)?\)', lists[0]):
+            bad[int(m.group(1))] = int(m.group(2))
+    return bad, broken
